@@ -45,6 +45,7 @@ GInit ==
     /\ accepted = [i \in M |-> <<>>]
     /\ seen = [i \in M |-> [k \in 1..MaxN |-> <<>>]]
     /\ nArr = [i \in M |-> 0]
+    /\ recvFrom = [i \in M |-> [j \in M |-> 0]]
     /\ rcvErr = [i \in M |-> 0]
     /\ outcome = [i \in M |-> Running]
     /\ hist = <<>>
@@ -52,7 +53,7 @@ GInit ==
     /\ plan = [i \in M |-> [kind |-> "none", k |-> 1]]
 
 machineVars == <<pc, cur, lastEnd, waitReq, initReq, initAct, endReq, registered, queue,
-                 accepted, seen, nArr, rcvErr, outcome>>
+                 accepted, seen, nArr, recvFrom, rcvErr, outcome>>
 
 AddState ==
     /\ phase > 0
@@ -90,7 +91,8 @@ GNext ==
                   \/ MayFail(i, "waiter") /\ FailWaiter(i) /\ Log("FailWaiter", i, FALSE)
                   \/ MayFail(i, "next") /\ FailNext(i) /\ Log("FailNext", i, FALSE)
                   \/ /\ nArr[i] < ArrivalsPerState * cur[i]     \* sampling bias only: spread arrivals over the states
-                     /\ \E b \in BadMsgs : Arrive(i, b) /\ Log("Arrive", i, b)
+                     /\ \/ \E b \in BadMsgs : Arrive(i, b) /\ Log("Arrive", i, b)
+                        \/ \E j \in M : ArriveFrom(i, j) /\ Log("Arrive", i, FALSE)
 
 GSpec == GInit /\ [][GNext]_gvars
 
